@@ -1312,6 +1312,7 @@ static void CodeALIGN(Word Index) {
                     BookKeeping();
                 } else if ((LargeInt)CodeLen * Granularity() > (LargeInt)MaxCodeLen) {
                     WrError(ErrNum_CodeOverflow);
+                    CodeLen = 0;
                 } else {
                     /* CodeLen counts address units, the code buffer is filled per byte */
                     memset(BAsmCode, AlignFill, CodeLen * Granularity());
